@@ -1,5 +1,510 @@
-use crate::mc::Eng;
+//! C01 — dimensional analysis: unit exponents compose additively, mismatches panic.
+use crate::env::*;
+use crate::mc::*;
 use crate::Ctx;
-pub fn run(_ctx: &Ctx) -> Vec<Eng> {
-    vec![]
+use rrtk::*;
+
+macro_rules! named {
+    ($($n:ident),* $(,)?) => { vec![$((stringify!($n), $n)),*] };
+}
+pub fn named_units() -> Vec<(&'static str, Unit)> {
+    named!(
+        INVERSE_MILLIMETER_CUBED_SECOND_CUBED, INVERSE_MILLIMETER_CUBED_SECOND_SQUARED, INVERSE_MILLIMETER_CUBED_SECOND, INVERSE_MILLIMETER_CUBED,
+        SECOND_PER_MILLIMETER_CUBED, SECOND_SQUARED_PER_MILLIMETER_CUBED, SECOND_CUBED_PER_MILLIMETER_CUBED,
+        INVERSE_MILLIMETER_SQUARED_SECOND_CUBED, INVERSE_MILLIMETER_SQUARED_SECOND_SQUARED, INVERSE_MILLIMETER_SQUARED_SECOND, INVERSE_MILLIMETER_SQUARED,
+        SECOND_PER_MILLIMETER_SQUARED, SECOND_SQUARED_PER_MILLIMETER_SQUARED, SECOND_CUBED_PER_MILLIMETER_SQUARED,
+        INVERSE_MILLIMETER_SECOND_CUBED, INVERSE_MILLIMETER_SECOND_SQUARED, INVERSE_MILLIMETER_SECOND, INVERSE_MILLIMETER,
+        SECOND_PER_MILLIMETER, SECOND_SQUARED_PER_MILLIMETER, SECOND_CUBED_PER_MILLIMETER,
+        INVERSE_SECOND_CUBED, INVERSE_SECOND_SQUARED, INVERSE_SECOND, DIMENSIONLESS, SECOND, SECOND_SQUARED, SECOND_CUBED,
+        MILLIMETER_PER_SECOND_CUBED, MILLIMETER_PER_SECOND_SQUARED, MILLIMETER_PER_SECOND, MILLIMETER, MILLIMETER_SECOND, MILLIMETER_SECOND_SQUARED, MILLIMETER_SECOND_CUBED,
+        MILLIMETER_SQUARED_PER_SECOND_CUBED, MILLIMETER_SQUARED_PER_SECOND_SQUARED, MILLIMETER_SQUARED_PER_SECOND, MILLIMETER_SQUARED, MILLIMETER_SQUARED_SECOND, MILLIMETER_SQUARED_SECOND_SQUARED, MILLIMETER_SQUARED_SECOND_CUBED,
+        MILLIMETER_CUBED_PER_SECOND_CUBED, MILLIMETER_CUBED_PER_SECOND_SQUARED, MILLIMETER_CUBED_PER_SECOND, MILLIMETER_CUBED, MILLIMETER_CUBED_SECOND, MILLIMETER_CUBED_SECOND_SQUARED, MILLIMETER_CUBED_SECOND_CUBED,
+    )
+}
+/// exponents stated by a constant's name (INVERSE_/PER/SQUARED/CUBED grammar)
+pub fn parse_name(name: &str) -> (i32, i32) {
+    if name == "DIMENSIONLESS" {
+        return (0, 0);
+    }
+    let toks: Vec<&str> = name.split('_').collect();
+    let (mut m, mut s) = (0, 0);
+    let mut sign = 1;
+    let mut i = 0;
+    while i < toks.len() {
+        match toks[i] {
+            "INVERSE" | "PER" => sign = -1,
+            base @ ("MILLIMETER" | "SECOND") => {
+                let mut exp = 1;
+                if i + 1 < toks.len() {
+                    if toks[i + 1] == "SQUARED" {
+                        exp = 2;
+                        i += 1;
+                    } else if toks[i + 1] == "CUBED" {
+                        exp = 3;
+                        i += 1;
+                    }
+                }
+                if base == "MILLIMETER" {
+                    m += sign * exp
+                } else {
+                    s += sign * exp
+                }
+            }
+            other => panic!("unexpected token {} in unit constant name {}", other, name),
+        }
+        i += 1;
+    }
+    (m, s)
+}
+
+pub const VALS: [f32; 12] = [0.0, -0.0, 1.0, -1.5, 0.1, 7e6, -2.5e-7, f32::MAX, f32::MIN_POSITIVE, 1e-40, 3.0, -1024.0];
+
+fn feq(a: f32, b: f32) -> bool {
+    a.to_bits() == b.to_bits() || (a.is_nan() && b.is_nan())
+}
+
+#[derive(Clone, Copy, PartialEq, Debug)]
+enum UExp {
+    Same,  // unit of the left operand, panics on mismatch
+    Add,   // exponents add
+    Sub,   // exponents subtract
+    Keep,  // unary: unchanged
+}
+
+fn uq(m: i32, s: i32) -> Unit {
+    Unit::new(m as i8, s as i8)
+}
+
+/// One operator form on (Quantity, Quantity): returns the resulting Quantity.
+type QOp = (&'static str, UExp, fn(Quantity, Quantity) -> Quantity, fn(f32, f32) -> f32);
+fn qops() -> Vec<QOp> {
+    vec![
+        ("q+q", UExp::Same, |a, b| a + b, |x, y| x + y),
+        ("q-q", UExp::Same, |a, b| a - b, |x, y| x - y),
+        ("q*q", UExp::Add, |a, b| a * b, |x, y| x * y),
+        ("q/q", UExp::Sub, |a, b| a / b, |x, y| x / y),
+        ("q+=q", UExp::Same, |mut a, b| { a += b; a }, |x, y| x + y),
+        ("q-=q", UExp::Same, |mut a, b| { a -= b; a }, |x, y| x - y),
+        ("q*=q", UExp::Add, |mut a, b| { a *= b; a }, |x, y| x * y),
+        ("q/=q", UExp::Sub, |mut a, b| { a /= b; a }, |x, y| x / y),
+    ]
+}
+type UOp = (&'static str, UExp, fn(Unit, Unit) -> Unit);
+fn uops() -> Vec<UOp> {
+    vec![
+        ("u+u", UExp::Same, |a, b| a + b),
+        ("u-u", UExp::Same, |a, b| a - b),
+        ("u*u", UExp::Add, |a, b| a * b),
+        ("u/u", UExp::Sub, |a, b| a / b),
+        ("u+=u", UExp::Same, |mut a, b| { a += b; a }),
+        ("u-=u", UExp::Same, |mut a, b| { a -= b; a }),
+        ("u*=u", UExp::Add, |mut a, b| { a *= b; a }),
+        ("u/=u", UExp::Sub, |mut a, b| { a /= b; a }),
+    ]
+}
+
+fn expect_unit(k: UExp, a: (i32, i32), b: (i32, i32)) -> (i32, i32) {
+    match k {
+        UExp::Same | UExp::Keep => a,
+        UExp::Add => (a.0 + b.0, a.1 + b.1),
+        UExp::Sub => (a.0 - b.0, a.1 - b.1),
+    }
+}
+
+fn check_pair(e: &mut Eng, a: (i32, i32), b: (i32, i32), vals: &[(f32, f32)]) {
+    let (ua, ub) = (uq(a.0, a.1), uq(b.0, b.1));
+    let differ = a != b;
+    let checked = cfg!(feature = "dimcheck");
+    if differ {
+        e.nontrivial += 1;
+    }
+    for (name, k, f, raw) in qops() {
+        let must_panic = checked && k == UExp::Same && differ;
+        for &(x, y) in vals {
+            e.executions += 1;
+            e.transitions += 1;
+            let r = guard(|| f(Quantity::new(x, ua), Quantity::new(y, ub)));
+            match (r, must_panic) {
+                (Err(_), true) => {}
+                (Err(m), false) => e.violation(&format!("units:{}:unexpected-panic", name), 1, || format!("{:?} {} {:?} with values ({:?}, {:?}) panicked: {}", a, name, b, x, y, m)),
+                (Ok(q), true) => e.violation(&format!("units:{}:mismatch-not-rejected", name), 1, || format!("{:?} {} {:?} returned {:?} although the units differ", a, name, b, q)),
+                (Ok(q), false) => {
+                    e.checks += 1;
+                    let want_u = expect_unit(k, a, b);
+                    if checked && unit_exps(q.unit) != want_u {
+                        e.violation(&format!("units:{}:result-unit", name), 1, || format!("{:?} {} {:?} gave unit {:?}, expected exponents {:?}", a, name, b, unit_exps(q.unit), want_u));
+                    }
+                    if !feq(q.value, raw(x, y)) {
+                        e.violation(&format!("units:{}:value", name), 1, || format!("{:?} {} {:?}: value {:?} but the raw f32 operator gives {:?}", a, name, b, q.value, raw(x, y)));
+                    }
+                }
+            }
+            if must_panic && x != vals[0].0 {
+                break; // a panic does not depend on the values: two value pairs are enough
+            }
+        }
+    }
+    // ordering
+    for &(x, y) in vals.iter().take(if differ { 2 } else { vals.len() }) {
+        let (qa, qb) = (Quantity::new(x, ua), Quantity::new(y, ub));
+        let forms: [(&str, Box<dyn Fn() -> Option<i8>>); 3] = [
+            ("partial_cmp", Box::new(move || qa.partial_cmp(&qb).map(|o| o as i8))),
+            ("<", Box::new(move || Some((qa < qb) as i8))),
+            (">", Box::new(move || Some((qa > qb) as i8))),
+        ];
+        for (name, f) in forms.iter() {
+            e.executions += 1;
+            e.transitions += 1;
+            let r = guard(|| f());
+            let must_panic = checked && differ;
+            let want = match *name {
+                "partial_cmp" => x.partial_cmp(&y).map(|o| o as i8),
+                "<" => Some((x < y) as i8),
+                _ => Some((x > y) as i8),
+            };
+            match (r, must_panic) {
+                (Err(_), true) => {}
+                (Err(m), false) => e.violation(&format!("units:{}:unexpected-panic", name), 1, || format!("{:?} {} {:?} panicked: {}", a, name, b, m)),
+                (Ok(_), true) => e.violation(&format!("units:{}:mismatch-not-rejected", name), 1, || format!("ordering {:?} {} {:?} did not panic although the units differ", a, name, b)),
+                (Ok(v), false) => {
+                    e.checks += 1;
+                    if v != want {
+                        e.violation(&format!("units:{}:value", name), 1, || format!("{:?} {} {:?} on ({:?},{:?}) gave {:?}, raw f32 gives {:?}", a, name, b, x, y, v, want));
+                    }
+                }
+            }
+        }
+    }
+    // bare units behave like the units of quantities
+    for (name, k, f) in uops() {
+        e.executions += 1;
+        e.transitions += 1;
+        let must_panic = checked && k == UExp::Same && differ;
+        let r = guard(|| f(ua, ub));
+        match (r, must_panic) {
+            (Err(_), true) => {}
+            (Err(m), false) => e.violation(&format!("units:{}:unexpected-panic", name), 1, || format!("{:?} {} {:?} panicked: {}", a, name, b, m)),
+            (Ok(u), true) => e.violation(&format!("units:{}:mismatch-not-rejected", name), 1, || format!("{:?} {} {:?} returned {:?}", a, name, b, u)),
+            (Ok(u), false) => {
+                e.checks += 1;
+                if checked && unit_exps(u) != expect_unit(k, a, b) {
+                    e.violation(&format!("units:{}:result-unit", name), 1, || format!("{:?} {} {:?} gave {:?}", a, name, b, unit_exps(u)));
+                }
+            }
+        }
+    }
+    // equality helpers agree with the exponents
+    if checked {
+        e.checks += 1;
+        let eqs = [ua.eq_assume_true(&ub), ua.eq_assume_false(&ub)];
+        #[cfg(feature = "dimcheck")]
+        let eqs2 = [ua.const_eq(&ub), ua == ub];
+        #[cfg(not(feature = "dimcheck"))]
+        let eqs2 = [!differ, !differ];
+        if eqs.iter().chain(eqs2.iter()).any(|&x| x == differ) {
+            e.violation("units:equality", 1, || format!("{:?} vs {:?}: eq_assume_true/eq_assume_false/const_eq/== give {:?} {:?}", a, b, eqs, eqs2));
+        }
+        let r1 = guard(|| ua.assert_eq_assume_ok(&ub)).is_err();
+        let r2 = guard(|| ua.assert_eq_assume_not_ok(&ub)).is_err();
+        if r1 != differ || r2 != differ {
+            e.violation("units:assert-equality", 1, || format!("{:?} vs {:?}: assert_eq_assume_ok panicked={} assert_eq_assume_not_ok panicked={}", a, b, r1, r2));
+        }
+    }
+    e.outcome(h64(&(a, b)));
+}
+
+fn unary(e: &mut Eng, a: (i32, i32)) {
+    let ua = uq(a.0, a.1);
+    for &x in &VALS {
+        e.executions += 1;
+        e.transitions += 2;
+        e.checks += 2;
+        let q = Quantity::new(x, ua);
+        let n = -q;
+        let ab = q.abs();
+        let checked = cfg!(feature = "dimcheck");
+        if (checked && (unit_exps(n.unit) != a || unit_exps(ab.unit) != a)) || !feq(n.value, -x) || ab.value != x.abs() {
+            e.violation("units:unary", 1, || format!("{:?} value {:?}: neg -> {:?}, abs -> {:?}", a, x, n, ab));
+        }
+        if checked && unit_exps(-ua) != a {
+            e.violation("units:unary", 1, || format!("-{:?} on a bare unit", a));
+        }
+    }
+}
+
+/// mixed operators with Time (acts as SECOND) and DimensionlessInteger (acts as DIMENSIONLESS)
+fn mixed(e: &mut Eng, a: (i32, i32)) {
+    let ua = uq(a.0, a.1);
+    let checked = cfg!(feature = "dimcheck");
+    let times = [Time(2_000_000_000), Time(-3), Time(0), Time(123_456_789_012)];
+    let ints = [DimensionlessInteger(2), DimensionlessInteger(-7), DimensionlessInteger(0), DimensionlessInteger(16_777_217)];
+    macro_rules! case {
+        ($name:expr, $k:expr, $other:expr, $real:expr, $conv:expr) => {{
+            e.executions += 1;
+            e.transitions += 1;
+            let other_u: (i32, i32) = $other;
+            let k: UExp = $k;
+            let must_panic = checked && k == UExp::Same && a != other_u;
+            let r: Result<Quantity, String> = guard(|| $real);
+            let c: Result<Quantity, String> = guard(|| $conv);
+            match (&r, must_panic) {
+                (Err(_), true) => {
+                    if c.is_ok() {
+                        e.violation(&format!("units:mixed:{}:panic-differs", $name), 1, || format!("unit {:?}: the mixed operator panicked but the converted Quantity operator did not", a));
+                    }
+                }
+                (Err(m), false) => e.violation(&format!("units:mixed:{}:unexpected-panic", $name), 1, || format!("unit {:?}: {}", a, m)),
+                (Ok(q), true) => e.violation(&format!("units:mixed:{}:mismatch-not-rejected", $name), 1, || format!("unit {:?}: returned {:?}", a, q)),
+                (Ok(q), false) => {
+                    e.checks += 1;
+                    let want = expect_unit(k, a, other_u);
+                    let want = if $name.starts_with("t") || $name.starts_with("i") { match k { UExp::Same => other_u, UExp::Add => (other_u.0 + a.0, other_u.1 + a.1), UExp::Sub => (other_u.0 - a.0, other_u.1 - a.1), UExp::Keep => a } } else { want };
+                    if checked && unit_exps(q.unit) != want {
+                        e.violation(&format!("units:mixed:{}:result-unit", $name), 1, || format!("unit {:?}: result unit {:?}, expected {:?}", a, unit_exps(q.unit), want));
+                    }
+                    match &c {
+                        Ok(cq) => {
+                            if !feq(cq.value, q.value) || unit_exps(cq.unit) != unit_exps(q.unit) {
+                                e.violation(&format!("units:mixed:{}:differs-from-converted", $name), 1, || format!("unit {:?}: mixed operator gives {:?} but the Quantity operator on converted operands gives {:?}", a, q, cq));
+                            }
+                        }
+                        Err(m) => e.violation(&format!("units:mixed:{}:panic-differs", $name), 1, || format!("unit {:?}: converted form panicked ({}) but the mixed operator returned {:?}", a, m, q)),
+                    }
+                }
+            }
+        }};
+    }
+    let sec = (0, 1);
+    let dl = (0, 0);
+    for &x in &[1.5f32, -0.1, 0.0, 7e6] {
+        let q = Quantity::new(x, ua);
+        for &t in &times {
+            let tq = Quantity::from(t);
+            case!("q+t", UExp::Same, sec, q + t, q + tq);
+            case!("q-t", UExp::Same, sec, q - t, q - tq);
+            case!("q*t", UExp::Add, sec, q * t, q * tq);
+            case!("q/t", UExp::Sub, sec, q / t, q / tq);
+            case!("q+=t", UExp::Same, sec, { let mut z = q; z += t; z }, q + tq);
+            case!("q-=t", UExp::Same, sec, { let mut z = q; z -= t; z }, q - tq);
+            case!("q*=t", UExp::Add, sec, { let mut z = q; z *= t; z }, q * tq);
+            case!("q/=t", UExp::Sub, sec, { let mut z = q; z /= t; z }, q / tq);
+            case!("t+q", UExp::Same, sec, t + q, tq + q);
+            case!("t-q", UExp::Same, sec, t - q, tq - q);
+            case!("t*q", UExp::Add, sec, t * q, tq * q);
+            case!("t/q", UExp::Sub, sec, t / q, tq / q);
+        }
+        for &i in &ints {
+            let iq = Quantity::from(i);
+            case!("q+i", UExp::Same, dl, q + i, q + iq);
+            case!("q-i", UExp::Same, dl, q - i, q - iq);
+            case!("q*i", UExp::Add, dl, q * i, q * iq);
+            case!("q/i", UExp::Sub, dl, q / i, q / iq);
+            case!("q+=i", UExp::Same, dl, { let mut z = q; z += i; z }, q + iq);
+            case!("q-=i", UExp::Same, dl, { let mut z = q; z -= i; z }, q - iq);
+            case!("q*=i", UExp::Add, dl, { let mut z = q; z *= i; z }, q * iq);
+            case!("q/=i", UExp::Sub, dl, { let mut z = q; z /= i; z }, q / iq);
+            case!("i+q", UExp::Same, dl, i + q, iq + q);
+            case!("i-q", UExp::Same, dl, i - q, iq - q);
+            case!("i*q", UExp::Add, dl, i * q, iq * q);
+            case!("i/q", UExp::Sub, dl, i / q, iq / q);
+        }
+    }
+    e.outcome(h64(&a));
+}
+
+pub fn mixed_pub(e: &mut Eng, a: (i32, i32)) {
+    mixed(e, a)
+}
+
+fn time_int_products(e: &mut Eng) {
+    let times = [Time(2_000_000_000), Time(-3), Time(1), Time(123_456_789_012)];
+    let ints = [DimensionlessInteger(2), DimensionlessInteger(-7), DimensionlessInteger(16_777_217)];
+    let checked = cfg!(feature = "dimcheck");
+    for &a in &times {
+        for &b in &times {
+            e.executions += 2;
+            e.checks += 2;
+            let m = a * b;
+            let d = a / b;
+            let (qa, qb) = (Quantity::from(a), Quantity::from(b));
+            if !feq(m.value, (qa * qb).value) || (checked && unit_exps(m.unit) != (0, 2)) {
+                e.violation("units:mixed:t*t", 1, || format!("{:?} * {:?} = {:?}", a, b, m));
+            }
+            if !feq(d.value, (qa / qb).value) || (checked && unit_exps(d.unit) != (0, 0)) {
+                e.violation("units:mixed:t/t", 1, || format!("{:?} / {:?} = {:?}", a, b, d));
+            }
+        }
+        for &i in &ints {
+            e.executions += 1;
+            e.checks += 1;
+            let d = i / a;
+            if !feq(d.value, (Quantity::from(i) / Quantity::from(a)).value) || (checked && unit_exps(d.unit) != (0, -1)) {
+                e.violation("units:mixed:i/t", 1, || format!("{:?} / {:?} = {:?}", i, a, d));
+            }
+        }
+    }
+}
+
+fn constants_and_conversions(e: &mut Eng) {
+    let table = named_units();
+    // cross-check the table against the source
+    let src = std::fs::read_to_string("/repo/src/dimensions/constants.rs").expect("cannot read constants.rs");
+    let in_source: Vec<&str> = src.lines().filter_map(|l| l.strip_prefix("pub const ")).filter(|l| l.contains(": Unit")).map(|l| l.split(':').next().unwrap()).collect();
+    for n in &in_source {
+        if !table.iter().any(|(t, _)| t == n) {
+            panic!("unit constant {} exists in the source but not in the harness table", n);
+        }
+    }
+    e.count("named_constants_in_source", in_source.len() as i128);
+    e.count("named_constants_in_table", table.len() as i128);
+    let checked = cfg!(feature = "dimcheck");
+    let mut seen = std::collections::HashSet::new();
+    for (name, u) in &table {
+        e.executions += 1;
+        e.states += 1;
+        e.checks += 1;
+        e.nontrivial += 1;
+        let want = parse_name(name);
+        seen.insert(want);
+        if checked && (unit_exps(*u) != want || unit_exps_debug(*u) != want) {
+            e.violation("units:named-constant", 1, || format!("{} has exponents {:?} but its name states {:?}", name, unit_exps(*u), want));
+        }
+        e.outcome(h64(&want));
+    }
+    if seen.len() != 49 {
+        e.violation("units:named-constant", 1, || format!("the named constants cover {} distinct exponent pairs, expected all 49 of [-3,3]^2", seen.len()));
+    }
+    // position derivative <-> unit, command <-> quantity, piece -> unit
+    let pds = [(PositionDerivative::Position, (1, 0)), (PositionDerivative::Velocity, (1, -1)), (PositionDerivative::Acceleration, (1, -2))];
+    for (pd, ex) in pds {
+        e.executions += 1;
+        e.checks += 1;
+        if checked && unit_exps(Unit::from(pd)) != ex {
+            e.violation("units:position-derivative", 1, || format!("Unit::from({:?}) = {:?}", pd, unit_exps(Unit::from(pd))));
+        }
+        let c = Command::new(pd, 2.5);
+        let qc = Quantity::from(c);
+        if qc.value != 2.5 || (checked && unit_exps(qc.unit) != ex) {
+            e.violation("units:command-to-quantity", 1, || format!("Quantity::from({:?}) = {:?}", c, qc));
+        }
+    }
+    #[cfg(feature = "dimcheck")]
+    for m in -3..=3 {
+        for s in -3..=3 {
+            e.executions += 1;
+            e.checks += 2;
+            let u = uq(m, s);
+            let want = pds.iter().find(|(_, ex)| *ex == (m, s)).map(|(p, _)| *p);
+            let got = PositionDerivative::try_from(u).ok();
+            if got != want {
+                e.violation("units:position-derivative", 1, || format!("PositionDerivative::try_from(unit {:?}) = {:?}, expected {:?}", (m, s), got, want));
+            }
+            let gc = Command::try_from(Quantity::new(4.0, u)).ok();
+            let wc = want.map(|p| Command::new(p, 4.0));
+            if gc != wc {
+                e.violation("units:command-from-quantity", 1, || format!("Command::try_from(4.0 with unit {:?}) = {:?}, expected {:?}", (m, s), gc, wc));
+            }
+        }
+    }
+    for (piece, ex) in [
+        (MotionProfilePiece::BeforeStart, None),
+        (MotionProfilePiece::InitialAcceleration, Some((1, -2))),
+        (MotionProfilePiece::ConstantVelocity, Some((1, -1))),
+        (MotionProfilePiece::EndAcceleration, Some((1, -2))),
+        (MotionProfilePiece::Complete, None),
+    ] {
+        e.executions += 1;
+        e.checks += 1;
+        let got = Unit::try_from(piece).ok();
+        let bad = match (got, ex) {
+            (None, None) => false,
+            (Some(u), Some(x)) => checked && unit_exps(u) != x,
+            _ => true,
+        };
+        if bad {
+            e.violation("units:piece-to-unit", 1, || format!("Unit::try_from({:?}) = {:?}", piece, got.map(unit_exps)));
+        }
+    }
+    e.sample(|| "MILLIMETER_SQUARED_PER_SECOND_CUBED: name states (2,-3)".to_string());
+}
+
+pub fn axis(extended: bool) -> Vec<i32> {
+    if extended {
+        vec![-60, -31, -4, -3, -2, -1, 0, 1, 2, 3, 4, 31, 60]
+    } else {
+        vec![-3, -2, -1, 0, 1, 2, 3]
+    }
+}
+
+pub fn run(ctx: &Ctx) -> Vec<Eng> {
+    let budget = Budget::secs(if ctx.thorough { 2000 } else { 120 });
+    let mut allvals = Vec::new();
+    for &x in &VALS {
+        for &y in &VALS {
+            allvals.push((x, y));
+        }
+    }
+    let fewvals = vec![(1.5f32, -0.1f32), (f32::MAX, f32::MAX), (0.0, -0.0), (7e6, 1e-40)];
+    let mut e1 = Eng::new(
+        "c01-grid-pairs",
+        "all ordered pairs of the 49 grid units x every Quantity operator form (+ - * / and assign forms, partial_cmp < >) x all 144 ordered pairs of a 12-value f32 alphabet (incl. +-0, MAX, MIN_POSITIVE, a subnormal); same operators on bare units; equality helpers; oracle: result unit = exponent arithmetic (read from the representation, independent of the crate's equality code), value bit-equal to the raw f32 operator, panic <=> add/sub/ordering with differing units; non-trivial = the two units differ",
+        "49 x 49 unit pairs",
+    );
+    let ax = axis(false);
+    let mut pairs: Vec<((i32, i32), (i32, i32))> = Vec::new();
+    for &m1 in &ax {
+        for &s1 in &ax {
+            for &m2 in &ax {
+                for &s2 in &ax {
+                    pairs.push(((m1, s1), (m2, s2)));
+                }
+            }
+        }
+    }
+    par_cases(&mut e1, &pairs, budget, |(a, b), e| {
+        e.states += 1;
+        check_pair(e, *a, *b, &allvals);
+    });
+    e1.sample(|| "(1,-1) q+q (0,-1) with (1.5,-0.1): must panic; (2,-3) q/q (-1,1): unit (3,-4)".to_string());
+    let mut e2 = Eng::new(
+        "c01-extended-pairs",
+        "all ordered pairs of units with exponents on the extended axis {-60,-31,-4..4,31,60} (sums stay inside i8), 4 value pairs; same oracle",
+        "169 x 169 unit pairs",
+    );
+    let axe = axis(true);
+    let mut pairs2 = Vec::new();
+    let stride = if ctx.thorough { 1 } else { 1 };
+    for &m1 in &axe {
+        for &s1 in &axe {
+            for &m2 in &axe {
+                for &s2 in &axe {
+                    pairs2.push(((m1, s1), (m2, s2)));
+                }
+            }
+        }
+    }
+    let _ = stride;
+    par_cases(&mut e2, &pairs2, budget, |(a, b), e| {
+        e.states += 1;
+        check_pair(e, *a, *b, &fewvals);
+    });
+    e2.sample(|| "(60,-31) q*q (60,31): unit (120,0)".to_string());
+    let mut e3 = Eng::new(
+        "c01-unary-mixed-constants",
+        "neg/abs on 169 units x 12 values; every mixed operator form of the three implementation tables (Quantity with Time / DimensionlessInteger on either side, assign forms, Time*Time, Time/Time, DimensionlessInteger/Time) on 169 units x 4 values x 4 integer operands, compared with the Quantity operator on converted operands (value bits, unit, panic behaviour); the 49 named constants against an independent parser of their names (table cross-checked with the source); PositionDerivative/Command/MotionProfilePiece conversions over all kinds and all 49 units",
+        "",
+    );
+    for &m in &axe {
+        for &s in &axe {
+            e3.states += 1;
+            if (m, s) != (0, 1) && (m, s) != (0, 0) {
+                e3.nontrivial += 1;
+            }
+            unary(&mut e3, (m, s));
+            mixed(&mut e3, (m, s));
+        }
+    }
+    time_int_products(&mut e3);
+    constants_and_conversions(&mut e3);
+    vec![e1, e2, e3]
 }
